@@ -160,7 +160,8 @@ def run_cli(d, argv, case, extra_env=None, strace=False):
     if strace:
         st_out = os.path.join(d, "strace.txt")
         cmd = ["strace", "-f", "-qq", "-e", "trace=openat,open,creat,rename,renameat,renameat2,unlink,unlinkat,truncate,ftruncate", "-o", st_out] + cmd
-    r = subprocess.run(cmd, capture_output=True, cwd=d, env=env, timeout=300)
+    from ..common import run_bounded
+    r = run_bounded(cmd, timeout=300, capture_output=True, cwd=d, env=env)
     trace = []
     if os.path.exists(log):
         with open(log) as f:
@@ -248,6 +249,9 @@ def main():
         for case, argv, r, trace, after, st in done:
             cnt = {"cli_runs": 1, "strace_runs": int(st is not None), "fault_" + case["kind"]: 1,
                    "audit_traces": int(bool(trace)), "with_existing_target": int(case["out"] and case["existing"])}
+            if getattr(r, "timed_out", False):
+                v.add({"argv": argv, "kind": case["kind"]}, {"status": "inconclusive", "why": "case timeout", "witnesses": [], "counters": cnt})
+                continue
             if case["kind"] == "success":
                 wit = []
                 if r.returncode != 0:
